@@ -189,6 +189,12 @@ type PState struct {
 	// paths) is filled with this pattern instead of zeros. The bytes behind
 	// len(data) are not part of the data: results must not depend on them.
 	Poison byte
+	// FreshBlocks: every Parse call gets a new, empty Block (no capacity)
+	// and the caller keeps the earlier ones, as a caller that collects the
+	// blocks of a stream does: a block must still hold what it held when
+	// Parse returned, whatever is called afterwards.
+	FreshBlocks bool
+	kept        []keptBlock
 	// yield, if set, is called before every operation (histories that are
 	// interleaved with the history of another object).
 	yield func()
@@ -198,6 +204,47 @@ type PState struct {
 	// again, who overwrites them before every operation.
 	adopted []byte
 	freed   [][]byte
+}
+
+type keptBlock struct {
+	at   int
+	blk  *lz.Block
+	seqs []lz.Seq
+	lits []byte
+}
+
+// checkKept compares the blocks the caller has kept with their content at the
+// time Parse returned them.
+func (s *PState) checkKept(now int) (class, msg string) {
+	for _, k := range s.kept {
+		same := len(k.blk.Sequences) == len(k.seqs) && string(k.blk.Literals) == string(k.lits)
+		if same {
+			for j := range k.seqs {
+				if k.blk.Sequences[j] != k.seqs[j] {
+					same = false
+					break
+				}
+			}
+		}
+		if !same {
+			return "retained-block-modified", fmt.Sprintf("the block returned by the Parse call of op %d (%d sequences, %d literals; a new Block value that the caller kept) has changed by the time of op %d: now %d sequences, %d literals, first sequences %+v (were %+v)", k.at, len(k.seqs), len(k.lits), now, len(k.blk.Sequences), len(k.blk.Literals), head(k.blk.Sequences), head(k.seqs))
+		}
+	}
+	return "", ""
+}
+
+func head(s []lz.Seq) []lz.Seq {
+	if len(s) > 3 {
+		return s[:3]
+	}
+	return s
+}
+
+func (s *PState) keep(at int, blk *lz.Block) {
+	s.kept = append(s.kept, keptBlock{at, blk, append([]lz.Seq(nil), blk.Sequences...), append([]byte(nil), blk.Literals...)})
+	if len(s.kept) > 6 {
+		s.kept = s.kept[1:]
+	}
 }
 
 // Len returns the number of buffered bytes according to the model.
@@ -532,6 +579,12 @@ func RunHistory(st *PState, pc *PCase, obs PObserver) (class, msg string, at int
 		if st.yield != nil {
 			st.yield()
 		}
+		if st.FreshBlocks {
+			if c, m := st.checkKept(i); c != "" {
+				return c, m, i
+			}
+			blk = &lz.Block{}
+		}
 		for _, f := range st.freed {
 			f = f[:cap(f)]
 			for j := range f {
@@ -570,7 +623,9 @@ func RunHistory(st *PState, pc *PCase, obs PObserver) (class, msg string, at int
 				})
 			} else {
 				// sentinel content must be overwritten or emptied
-				poisonBlock(blk)
+				if !st.FreshBlocks {
+					poisonBlock(blk)
+				}
 				ev.Blk = blk
 				ev.Panic = call(func() {
 					n, err := p.Parse(blk, ev.Flags)
@@ -582,6 +637,9 @@ func RunHistory(st *PState, pc *PCase, obs PObserver) (class, msg string, at int
 						ev.ExpandErr = xerr
 					} else {
 						ev.NewDec = nd
+					}
+					if st.FreshBlocks {
+						st.keep(i, blk)
 					}
 				}
 			}
@@ -601,7 +659,9 @@ func RunHistory(st *PState, pc *PCase, obs PObserver) (class, msg string, at int
 			ev.Reader = rd
 			var b *lz.Block
 			if !ev.Nil {
-				poisonBlock(blk)
+				if !st.FreshBlocks {
+					poisonBlock(blk)
+				}
 				b = blk
 				ev.Blk = blk
 			}
